@@ -87,7 +87,10 @@ def render_nexus(doc):
             L += ["BEGIN CHARACTERS;"]
             if b["title"]:
                 L += ["    TITLE %s;" % b["title"]]
-            if b.get("type", "dna") == "standard":
+            if b.get("type", "dna") == "standard" and b.get("implicit_type"):
+                # no DATATYPE: the NEXUS default (STANDARD) applies, whichever class or route reads the block
+                fmtline = "    FORMAT GAP=- MISSING=?;"
+            elif b.get("type", "dna") == "standard":
                 fmtline = '    FORMAT DATATYPE=STANDARD SYMBOLS="01" GAP=- MISSING=?;'
             else:
                 fmtline = "    FORMAT DATATYPE=DNA GAP=- MISSING=?;"
@@ -427,6 +430,8 @@ def random_doc(rng):
         rows = [{"lab": lab, "seq": "".join(rng.choice(alpha) for _ in range(ncol))} for lab in taxa]
         at = rng.randint(0, len(blocks))
         blocks.insert(at, {"kind": "chars", "title": "cm%d" % (k + 1), "type": ctype, "rows": rows})
+        if ctype == "standard" and (k + ncol) % 2:
+            blocks[at]["implicit_type"] = True
         if rng.random() < 0.6:
             specs = [("every", "ALL"), ("first", "1-2"), ("rest", "2-."), ("one", "1"), ("two", "1 2")]
             rng.shuffle(specs)
